@@ -379,8 +379,14 @@ def f_lists(r, nk, k):
     subsets = [set(states[i] for i in range(nk.n) if m >> i & 1)
                for m in range(1, 1 << nk.n)]
     for _ in range(k):
-        n = r.choice([1, 1, 2])
-        out.append([set(r.choice(subsets)) for _ in range(n)])
+        n = r.choice([1, 1, 2, 2, 3])
+        F = [set(r.choice(subsets)) for _ in range(n)]
+        x = r.random()
+        if x < 0.15:
+            F = [frozenset(P) for P in F]          # frozenset constraints
+        elif x < 0.3:
+            F[0] = set(F[0]) | {'__not_a_state__'}  # a non-state in a set
+        out.append(F)
     return out
 
 
@@ -444,7 +450,7 @@ def drive(nk, Fs, ts, i0, ctx):
         elif len(F) == 2:
             LOG.sig['F:two_sets'] += 1
         for logic, t in ts:
-            res = call(logic, K, t, [set(P) for P in F], i)
+            res = call(logic, K, t, [type(P)(P) for P in F], i)
             if (not F or (len(F) == 1 and set(F[0]) == set(nk.states))):
                 # F satisfied by every path: must equal the call without F
                 base = call(logic, K, t, None, 1)
